@@ -337,6 +337,20 @@ def c19_session(variant):
     return b"".join(lc.frame(m) for m in msgs)
 
 
+SLOW_DOC = "".join("proc p%d(a: int) {\n  var x: int;\n  x := a + %d;\n  printi(x);\n}\n" % (i, i) for i in range(2000)) + "proc main() { }\n"
+
+
+def c19_slowdoc_session():
+    """a document whose analysis takes seconds, with two requests for it in the same write: they are answered from the
+    analysed document however the bytes arrive (never as if the document were unknown)"""
+    msgs = [lc.request(1, "initialize", INIT_PARAMS_DIAG), lc.notification("initialized", {}),
+            lc.notification("textDocument/didOpen", {"textDocument": {"uri": URI, "languageId": "spl", "version": 1, "text": SLOW_DOC}}),
+            lc.request(2, "textDocument/hover", {"textDocument": {"uri": URI}, "position": {"line": 0, "character": 6}}),
+            lc.request(3, "textDocument/foldingRange", {"textDocument": {"uri": URI}}),
+            lc.request(4, "shutdown"), lc.notification("exit")]
+    return b"".join(lc.frame(m) for m in msgs)
+
+
 def projections(r):
     resp = [m for m in r["messages"] if "id" in m and "method" not in m]
     notes = [m for m in r["messages"] if "method" in m]
@@ -348,20 +362,35 @@ def c19_cases(run):
     thorough = run.tier == "thorough"
     violations = []
     n_runs = 0
-    for variant in list(range(3 if thorough else 2)) + ["flood", "huge"]:
-        flood = variant in ("flood", "huge")
-        data = c19_huge_session() if variant == "huge" else c19_flood_session() if flood else c19_session(variant)
-        base = lc.run_session([data], timeout=20)
+    for variant in list(range(3 if thorough else 2)) + ["flood", "huge", "slowdoc"]:
+        flood = variant in ("flood", "huge", "slowdoc")
+        data = (c19_huge_session() if variant == "huge" else c19_slowdoc_session() if variant == "slowdoc"
+                else c19_flood_session() if flood else c19_session(variant))
+        base = lc.run_session([data], timeout=60 if variant == "slowdoc" else 20)
         if base["timed_out"] or base["problems"] or base["rc"] != 0:
             violations.append(("binary", f"SESSION {variant} unsplit", f"rc={base['rc']} problems={base['problems']} timed_out={base['timed_out']}", "", "baseline session failed"))
             continue
         want = projections(base)
+        if variant == "slowdoc":
+            # what the requests are owed does not depend on how long the analysis in front of them takes: a hover on the
+            # name of the first procedure of the open document, one folding range per procedure
+            by_id = {m.get("id"): m for m in base["messages"] if "id" in m and "method" not in m}
+            hov, fold = by_id.get(2, {}).get("result"), by_id.get(3, {}).get("result")
+            if not hov or not isinstance(fold, list) or len(fold) != 2001:
+                violations.append(("binary", "SESSION slowdoc unsplit", f"hover={json.dumps(hov)[:200]} folding ranges={len(fold) if isinstance(fold, list) else fold}",
+                                   "a hover for p0 and 2001 folding ranges", "requests written together with a slowly analysed document are answered as if it were not open"))
+                continue
         jobs = []
         stride = 1 if thorough else 7
         if flood:
             # the unsplit run is the fastest writer; slow writers (many chunks, delays) give the server time
             stride = 499 if thorough else 2999
-        for i in range(1 + ((0 if flood else variant) % stride), len(data), stride):
+        if variant == "slowdoc":
+            # a few cuts: inside the large body, inside the headers of the requests behind it, between the messages
+            cut_points = [100, len(data) // 2] + [len(data) - k for k in (1, 60, 150, 260, 330)]
+        else:
+            cut_points = range(1 + ((0 if flood else variant) % stride), len(data), stride)
+        for i in cut_points:
             jobs.append(("split2", [data[:i], data[i:]], f"{i}"))
         if flood:
             # one message per write, waiting a little in between
@@ -373,17 +402,18 @@ def c19_cases(run):
                 frames.append(head + b"\r\n\r\n" + tail[:n])
                 rest = tail[n:]
             jobs.append(("per-message", frames, "frames"))
-        for _ in range((400 if thorough else 40) if not flood else 8):
+        for _ in range((400 if thorough else 40) if not flood else (2 if variant == "slowdoc" else 8)):
             cuts = sorted(rng.sample(range(1, len(data)), rng.randrange(2, 12)))
             chunks = [data[a:b] for a, b in zip([0] + cuts, cuts + [len(data)])]
             jobs.append(("splitk", chunks, ",".join(map(str, cuts))))
-        jobs.append(("bytewise", [bytes([b]) for b in data], "1"))
+        if variant != "slowdoc":
+            jobs.append(("bytewise", [bytes([b]) for b in data], "1"))
         jobs.append(("delayed3", [data[:37], data[37:401], data[401:]], "37,401"))
 
         def one(job):
             kind, chunks, desc = job
             delay = 0.002 if kind in ("delayed3", "per-message") else 0.0
-            return lc.run_session(chunks, timeout=30, delay=delay)
+            return lc.run_session(chunks, timeout=90 if variant == "slowdoc" else 30, delay=delay)
 
         with ThreadPoolExecutor(max_workers=16) as ex:
             results = list(ex.map(one, jobs))
